@@ -155,8 +155,10 @@ def run_engine(spec):
     mk = classes_of(spec)
     kernels = [mk[k](POS_KEY[k], "tab_" + k, k, stamp) for k in spec["kernels"]]
     model = gs.DictInterface(lambda st: jnp.float32(0.0))
-    cfgs = [L["EpochConfig"](L["EpochType"].INITIAL_VALUES, 1, 1, None)] + [
-        L["EpochConfig"](L["EpochType"](int(t)), int(d), int(th), None) for t, d, th in spec["sched"]]
+    all_cfgs = [L["EpochConfig"](L["EpochType"](int(t)), int(d), int(th), None) for t, d, th in spec["sched"]]
+    hist = spec.get("history")
+    n_first = int(hist["prefix"]) if hist else len(all_cfgs)
+    cfgs = [L["EpochConfig"](L["EpochType"].INITIAL_VALUES, 1, 1, None)] + all_cfgs[:n_first]
     if spec.get("chunk") is None:
         b = gs.EngineBuilder(seed=int(spec.get("seed", 1)), num_chains=C)
         b.show_progress = False
@@ -174,7 +176,34 @@ def run_engine(spec):
                           jitted_sample_duration=int(spec["chunk"]), model=model,
                           position_keys=[POS_KEY[k] for k in spec["kernels"]], show_progress=False)
     eng.sample_all_epochs()
-    return eng.get_results()
+    if not hist:
+        return eng.get_results()
+    # history: results are read, then further (posterior) epochs are appended and sampled, then the results are read
+    # again - through the SAME results object or through a freshly obtained one
+    first = eng.get_results()
+    for what in hist.get("reads", []):
+        try:
+            if what == "samples":
+                first.get_posterior_samples(), first.get_samples(), first.get_error_log(True), first.get_error_log(False)
+            elif what == "summary":
+                s0 = gs.Summary(first)
+                s0.error_df(per_chain=True), s0.error_df(per_chain=False)
+            elif what == "arviz":
+                L["to_arviz"](first, include_warmup=False)
+            elif what == "pickle":
+                fd, path = tempfile.mkstemp(prefix="lv_c19_", suffix=".pkl")
+                os.close(fd)
+                try:
+                    first.pkl_save(path)
+                    L["SR"].pkl_load(path)
+                finally:
+                    os.remove(path)
+        except Exception:
+            pass                    # whatever the first read does is judged on the second read
+    for cfg in all_cfgs[n_first:]:
+        eng.append_epoch(cfg)
+        eng.sample_next_epoch()
+    return first if hist.get("read_through") == "same" else eng.get_results()
 
 
 def run_synth(spec):
@@ -506,6 +535,15 @@ def _first_row_diff(got, want, names):
 
 
 def oracle(case):
+    why = _oracle(case)
+    h = case["spec"].get("history")
+    if why and h:
+        why = (f"after the history [sample {h['prefix']} epoch(s); read {'+'.join(h['reads']) or 'nothing'}; append and sample "
+               f"{len(case['spec']['sched']) - h['prefix']} posterior epoch(s); read again through the {h['read_through']} results object]: " + why)
+    return why
+
+
+def _oracle(case):
     spec, obs = case["spec"], case["obs"]
     if obs is None:
         return f"running / reading the scripted run raised {case.get('error')}"
@@ -709,6 +747,11 @@ def fixed_specs():
          "seed": 8, "same_book": True, "sched": [[3, 3, 1], [4, 4, 2]],
          "tabs": {"ka": [[1, 0, 0, 0, 1, 0, 0], [0, 0, 0, 0, 0, 2, 0], [0, 1, 0, 0, 0, 0, 0]],
                   "kb": [[0, 0, 0, 0, 0, 0, 0], [0, 0, 1, 1, 0, 0, 0], [0, 0, 0, 0, 0, 1, 2]]}},
+        # history: Summary built after the first posterior epoch, a second posterior epoch (with errors) appended and
+        # sampled, everything re-read through the SAME results object
+        {"kind": "engine", "name": "fixed-history", "stratum": "history/fixed", "chains": 2, "kernels": ["ka"], "chunk": None, "seed": 9,
+         "sched": [[3, 2, 1], [4, 4, 2], [4, 2, 1]], "history": {"prefix": 2, "reads": ["samples", "summary", "arviz"], "read_through": "same"},
+         "tabs": {"ka": [[0, 1, 0, 0, 2, 0, 1, 3], [0, 0, 0, 0, 0, 0, 0, 2]]}},
         # no transition at all
         {"kind": "synth", "name": "fixed-notrans", "stratum": "synth/fixed", "chains": 2, "kernels": ["ka"], "chunk": 1, "seed": 7,
          "sched": [], "tabs": {"ka": [[], []]}},
@@ -788,6 +831,42 @@ def gen_specs(ctx, rnd, offset=0):
     return specs
 
 
+def history_specs(ctx, rnd):
+    """real engine runs with a multi-step history: sample a prefix of the schedule (ending in a posterior epoch), read the
+    results (samples / Summary / ArviZ / pickle), append one or two further posterior epochs WITH errors, sample them, and
+    read everything again through the same results object and through a freshly obtained one.  Every observable of the
+    second read must be that of the FULL schedule."""
+    out = []
+    n = 3 if ctx.quick else 16
+    reads_cycle = [["samples"], ["summary"], ["arviz"], ["samples", "summary", "arviz", "pickle"], ["pickle"], []]
+    for i in range(n):
+        shape = ["std", "thin_post", "thin_warm", "multi_post"][i % 4]
+        base = random_spec(rnd, "engine", 30000 + i, {"shape": shape, "chains": CHAINS[i % len(CHAINS)],
+                                                      "kernels": KERNELS[(i + 1) % len(KERNELS)], "pattern": "none"}, True)
+        g = 0
+        for _, d, _ in base["sched"]:
+            g = math.gcd(g, d)
+        chunk = base["chunk"] if base["chunk"] is not None else g
+        n_first = len(base["sched"])
+        for _ in range(1 + (i % 2)):
+            th = [1, 2, 1, 3][(i + _) % 4]
+            base["sched"].append([4, chunk * th * rnd.randint(1, 3), th])
+        if sum(d for _, d, _ in base["sched"]) > 70:
+            base["sched"] = base["sched"][:n_first] + [[4, chunk, 1]]
+        for through in ("same", "fresh"):
+            spec = retable(rnd, base, 30000 + i, ["both", "posterior_only", "dense", "boundary"][i % 4])
+            # the appended epochs carry errors in every chain
+            T, Tp = total_T(spec), sum(d for _, d, _ in spec["sched"][:n_first])
+            for kid in spec["kernels"]:
+                for c in range(spec["chains"]):
+                    spec["tabs"][kid][c][rnd.randrange(Tp, T)] = rnd.choice([1, 3])
+            spec["history"] = {"prefix": n_first, "reads": reads_cycle[i % len(reads_cycle)], "read_through": through}
+            spec["name"] = f"history-{i}-{through}"
+            spec["stratum"] = f"history/read={'+'.join(spec['history']['reads']) or 'none'}/then-append-{len(spec['sched']) - n_first}-posterior/reread-{through}"
+            out.append(spec)
+    return out
+
+
 def dtype_specs(ctx, rnd):
     """tested ArviZ / pickle clause on samples a float32 cannot hold: float64 positions (jax x64 enabled for these runs
     only) and int32 positions above 2**24; real engine runs and assembled results, warmup + posterior, with thinning"""
@@ -835,7 +914,7 @@ def features(spec):
 def generate(ctx):
     rnd = random.Random(ctx.seed)
     lib()
-    specs = gen_specs(ctx, rnd) + dtype_specs(ctx, rnd)
+    specs = gen_specs(ctx, rnd) + history_specs(ctx, rnd) + dtype_specs(ctx, rnd)
     cases = []
     for s in specs:
         cases.append(run_case(s))
@@ -1011,6 +1090,10 @@ def replay(rp) -> int:
     print("schedule (type, duration, thinning):", spec["sched"], "chains:", spec["chains"], "kernels:", spec["kernels"], "(all of the same class)" if spec.get("same_book") else "", "kind:", spec["kind"])
     for k, tab in spec["tabs"].items():
         print(f"scripted error codes of {k} (chain x transition):", tab)
+    if spec.get("history"):
+        h = spec["history"]
+        print(f"history: sample the first {h['prefix']} epochs, read {h['reads']}, append + sample the remaining epochs, "
+              f"read everything again through the {h['read_through']} results object")
     if why:
         print("REPLAY FAILS:", why)
         return 1
